@@ -168,3 +168,26 @@ func Std(kind string, prefix int, data []byte, scratchDir string) (r io.Reader, 
 	_, _ = br.Seek(int64(prefix), io.SeekStart)
 	return br, br.Len, cleanup
 }
+
+// Seekable is a Source that additionally implements io.Seeker (like a file on a slow medium: seekable AND
+// free to return short reads).  Seeking is relative to the start of Data; faults and the lazy tail are kept.
+type Seekable struct{ *Source }
+
+func (s Seekable) Seek(offset int64, whence int) (int64, error) {
+	var abs int64
+	switch whence {
+	case io.SeekStart:
+		abs = offset
+	case io.SeekCurrent:
+		abs = s.Pos + offset
+	case io.SeekEnd:
+		abs = s.total() + offset
+	default:
+		return 0, errors.New("src: invalid whence")
+	}
+	if abs < 0 {
+		return 0, errors.New("src: negative position")
+	}
+	s.Pos = abs
+	return abs, nil
+}
